@@ -1,12 +1,190 @@
-(* C12 -- cost is a differentiable, monotone function of the architecture only (thin slice; extended below) *)
-From Coq Require Import QArith ZArith List.
+(* C12 -- Cost is a differentiable, monotone function of the architecture only.
+   Statements only (model: Model/CostGrad.v + Model/Masks.v, proofs: Proofs/CostGrad.v).
+
+   PIT: cost = sum over layers of f (static, in_eff, out_eff, k_eff), with out_eff = sum theta_alpha, k_eff = the
+   normalised sum of theta_gamma * theta_beta, in_eff = the affine form of the producers' out_eff computed by the
+   features calculators.  The theorems hold for EVERY per-layer cost function f that is non-negative and monotone
+   non-decreasing in each size on non-negative sizes (visible premises; proved below for the built-in params / ops
+   (+ no-bias) formulas `std_f` and for the GAP8 latency model `gap8_f`), all networks (lists of layers with shared
+   maskers), all rational parameter vectors.  The evaluator has no weight / input argument (structural).
+   Differentiability itself is OBSERVED through torch.autograd by the check; what is proved here is the derivative
+   of the model: forward-mode AD over dual numbers Q[eps] of the same evaluators, torch.abs' = sign (0 at 0),
+   straight-through estimators = 1.  MPS / SuperNet: mixtures affine in each coefficient vector with the branch
+   cost as derivative; ODiMO: the parallel-accelerator reduction lies between min and max branch latency. *)
+From Coq Require Import QArith ZArith List Bool.
 Import ListNotations.
 Require Import Plinio.Base.Qx Plinio.Model.Masks Plinio.Model.CostGrad Plinio.Proofs.CostGrad.
 Open Scope Q_scope.
 
-Theorem C12_pit_cost_nonneg : forall (St : Type) (f : St -> Q -> Q -> Q -> Q),
-  (forall s a b c, 0 <= a -> 0 <= b -> 0 <= c -> 0 <= f s a b c) ->
-  (forall s a b c a' b' c', 0 <= a <= a' -> 0 <= b <= b' -> 0 <= c <= c' -> f s a b c <= f s a' b' c') ->
-  forall n : net St, wf_net n -> 0 <= pit_cost f n.
-Proof. exact pit_cost_nonneg. Qed.
+(* ---------------------------------------------------------------- mask maps *)
+(* every component of theta_alpha / theta_beta / theta_gamma, hence out_eff and k_eff, is non-decreasing in |x_i| of
+   every parameter element, and nothing depends on the keep-alive (last) element *)
+Theorem C12_mask_maps_monotone :
+  (forall p q, abs_le p q -> Forall2 Qle (theta_alpha p) (theta_alpha q)) /\
+  (forall p q, abs_le p q -> Forall2 Qle (theta_beta p) (theta_beta q)) /\
+  (forall K p q, abs_le p q -> Forall2 Qle (theta_gamma true K p) (theta_gamma true K q)) /\
+  (forall p q, abs_le p q -> qsum (theta_alpha p) <= qsum (theta_alpha q)) /\
+  (forall K b b' g g', abs_le b b' -> abs_le g g' -> k_eff_cont true K b g <= k_eff_cont true K b' g') /\
+  (forall p x y, theta_alpha (p ++ [x]) = theta_alpha (p ++ [y]) /\ theta_beta (p ++ [x]) = theta_beta (p ++ [y]) /\
+                 forall K, theta_gamma true K (p ++ [x]) = theta_gamma true K (p ++ [y])).
+Proof. exact mask_maps_monotone. Qed.
+
+(* ---------------------------------------------------------------- PIT cost, any admissible cost function *)
+Definition admissible {St} (ok : St -> Prop) (f : St -> Q -> Q -> Q -> Q) : Prop :=
+  (forall s a b c, ok s -> 0 <= a -> 0 <= b -> 0 <= c -> 0 <= f s a b c) /\
+  (forall s a b c a' b' c', ok s -> 0 <= a <= a' -> 0 <= b <= b' -> 0 <= c <= c' -> f s a b c <= f s a' b' c').
+
+Theorem C12_pit_cost_nonneg : forall St (f : St -> Q -> Q -> Q -> Q) ok, admissible ok f ->
+  forall n : net St, ok_net St ok n -> wf_net n -> 0 <= pit_cost f n.
+Proof. intros St f ok [H1 H2]. exact (pit_cost_nonneg St f ok H1 H2). Qed.
+
+(* raising the magnitude of any (set of) mask parameter(s) never lowers the cost *)
+Theorem C12_pit_cost_mono_abs : forall St (f : St -> Q -> Q -> Q -> Q) ok, admissible ok f ->
+  forall n n' : net St, ok_net St ok n -> wf_net n -> net_le n n' -> pit_cost f n <= pit_cost f n'.
+Proof. intros St f ok [H1 H2] n n' A B C. exact (proj2 (pit_cost_mono_abs St f ok H1 H2 n n' A B C)). Qed.
+
+(* every mask fully open (|x| = 1 everywhere) yields the cost of the original model *)
+Theorem C12_pit_cost_open_eq_original : forall St (f : St -> Q -> Q -> Q -> Q) ok, admissible ok f ->
+  forall n : net St, ok_net St ok n -> wf_net n -> open_net n -> pit_cost f n == orig_cost f n.
+Proof. intros St f ok [_ H2]. exact (pit_cost_open St f ok H2). Qed.
+
+(* the cost depends on the architecture only: the evaluator has no weight argument (pinned by the check, which
+   perturbs weights, batch-norm statistics and input batches on the implementation) *)
+Theorem C12_cost_indep_weights : forall St (f : St -> Q -> Q -> Q -> Q) (m m' : pit_model St),
+  pm_arch m = pm_arch m' -> model_cost f m = model_cost f m'.
+Proof. exact cost_indep_weights. Qed.
+
+(* the built-in formulas are admissible *)
+Theorem C12_std_admissible : admissible wf_std std_f.
+Proof. split; [intros; apply std_f_nonneg; assumption|intros; apply std_f_mono; assumption]. Qed.
+Theorem C12_gap8_admissible : admissible wf_g8 gap8_f.
+Proof. split; [intros; apply gap8_f_nonneg; assumption|intros; apply gap8_f_mono; assumption]. Qed.
+
+(* ---------------------------------------------------------------- derivative (dual numbers) *)
+(* the value component of the dual evaluation is the cost *)
+Theorem C12_dual_value_std : forall w n, dv (d_pit_cost d_std_f w n) = pit_cost std_f n.
+Proof. exact d_pit_cost_value_std. Qed.
+Theorem C12_dual_value_gap8 : forall w n, dv (d_pit_cost d_gap8_f w n) == pit_cost gap8_f n.
+Proof. exact d_pit_cost_value_gap8. Qed.
+
+(* sign: for every parameter element x of every network, sign(x) * d cost / d x >= 0 *)
+Theorem C12_pit_grad_sign : forall (n : net std) (w : pid),
+  wf_net n -> Forall (fun l => wf_std (l_s l)) (n_layers n) -> 0 <= qsgn (pval n w) * dd (d_pit_cost d_std_f w n).
+Proof. exact pit_grad_sign. Qed.
+
+(* what torch.abs gives at 0: the derivative is 0 at an element that is exactly 0 (although raising |x| raises
+   the cost), and 0 for keep-alive elements and frozen maskers *)
+Theorem C12_pit_grad_zero_at_zero : forall (n : net std) (w : pid), pval n w == 0 -> dd (d_pit_cost d_std_f w n) == 0.
+Proof. exact pit_grad_zero_at_zero. Qed.
+Theorem C12_pit_grad_keepalive_zero : forall (n : net std) m i,
+  S i = length (m_alpha (nth m (n_maskers n) dflt_masker)) -> dd (d_pit_cost d_std_f (PAlpha m i) n) == 0.
+Proof. exact pit_grad_keepalive_zero. Qed.
+Theorem C12_pit_grad_frozen_zero : forall (n : net std) m i,
+  m_frozen (nth m (n_maskers n) dflt_masker) = true -> dd (d_pit_cost d_std_f (PAlpha m i) n) == 0.
+Proof. exact pit_grad_frozen_zero. Qed.
+
+(* FULL statement wanted: every trainable, non keep-alive element x <> 0 of every network and every built-in spec has
+   sign(x) * d cost / d x > 0.  PROVED (partial): params / ops formulas; a features-mask element of a masker that is the
+   output masker of at least one non-depthwise layer with positive output size and cin * k + bias > 0; a
+   receptive-field / dilation element of any Conv1d layer with positive sizes.  Missing: elements of a masker used
+   only by depthwise layers / only as somebody's input, and the GAP8 formula (observed by the check). *)
+Theorem C12_pit_grad_pos_partial : forall (n : net std) (m i : nat) (l : layer std),
+  wf_net n -> Forall (fun l => wf_std (l_s l)) (n_layers n) ->
+  m_frozen (nth m (n_maskers n) dflt_masker) = false ->
+  (S i < length (m_alpha (nth m (n_maskers n) dflt_masker)))%nat ->
+  ~ pval n (PAlpha m i) == 0 ->
+  In l (n_layers n) -> l_mask l = m -> s_dw (l_s l) = false -> 0 < s_osz (l_s l) ->
+  0 < in_eff (n_maskers n) (l_in l) * (k_eff (l_time l) * s_kc (l_s l)) + s_b (l_s l) ->
+  0 < qsgn (pval n (PAlpha m i)) * dd (d_pit_cost d_std_f (PAlpha m i) n).
+Proof. exact pit_grad_pos_partial. Qed.
+
+Theorem C12_pit_grad_pos_beta_partial : forall (n : net std) (li i : nat) (l : layer std) (t : tmask),
+  wf_net n -> Forall (fun l => wf_std (l_s l)) (n_layers n) ->
+  nth_error (n_layers n) li = Some l -> l_time l = Some t ->
+  (1 <= t_K t)%nat -> length (t_beta t) = t_K t -> length (t_gamma t) = gamma_len (t_K t) ->
+  (S i < t_K t)%nat -> ~ pval n (PBeta li i) == 0 ->
+  0 < s_osz (l_s l) -> 0 < s_kc (l_s l) ->
+  0 < mask_eff (n_maskers n) (l_mask l) -> 0 < in_eff (n_maskers n) (l_in l) ->
+  0 < qsgn (pval n (PBeta li i)) * dd (d_pit_cost d_std_f (PBeta li i) n).
+Proof. exact pit_grad_pos_beta. Qed.
+
+Theorem C12_pit_grad_pos_gamma_partial : forall (n : net std) (li i : nat) (l : layer std) (t : tmask),
+  wf_net n -> Forall (fun l => wf_std (l_s l)) (n_layers n) ->
+  nth_error (n_layers n) li = Some l -> l_time l = Some t ->
+  (1 <= t_K t)%nat -> length (t_beta t) = t_K t -> length (t_gamma t) = gamma_len (t_K t) ->
+  (S i < gamma_len (t_K t))%nat -> ~ pval n (PGamma li i) == 0 ->
+  0 < s_osz (l_s l) -> 0 < s_kc (l_s l) ->
+  0 < mask_eff (n_maskers n) (l_mask l) -> 0 < in_eff (n_maskers n) (l_in l) ->
+  0 < qsgn (pval n (PGamma li i)) * dd (d_pit_cost d_std_f (PGamma li i) n).
+Proof. exact pit_grad_pos_gamma. Qed.
+
+(* ---------------------------------------------------------------- MPS / SuperNet / ODiMO *)
+(* SuperNetCombiner.get_cost: sum_i theta_i * c_i is affine in theta with derivative c_i >= 0 *)
+Theorem C12_mix_cost_affine : forall theta c i h, (i < length theta)%nat -> length theta = length c ->
+  mix_cost (upd theta i (nth i theta 0 + h)) c == mix_cost theta c + h * nth i c 0.
+Proof. exact mix_cost_affine. Qed.
+Theorem C12_mix_cost_nonneg : forall theta c, Forall (fun x => 0 <= x) theta -> Forall (fun x => 0 <= x) c -> 0 <= mix_cost theta c.
+Proof. exact mix_cost_nonneg. Qed.
+(* MPS layer (torch.sum reduction): affine in the weight-precision coefficients, derivative = sum_i thin_i * c_ij *)
+Theorem C12_mps_layer_cost_affine_w : forall thin thw c j h, (j < length thw)%nat ->
+  Forall (fun row => length row = length thw) c -> length thin = length c ->
+  mps_layer_cost thin (upd thw j (nth j thw 0 + h)) c ==
+  mps_layer_cost thin thw c + h * mix_cost thin (map (fun row => nth j row 0) c).
+Proof. exact mps_layer_cost_affine_w. Qed.
+Theorem C12_mps_layer_cost_nonneg : forall thin thw c, Forall (fun x => 0 <= x) thin -> Forall (fun x => 0 <= x) thw ->
+  Forall (fun row => Forall (fun x => 0 <= x) row) c -> 0 <= mps_layer_cost thin thw c.
+Proof. exact mps_layer_cost_nonneg. Qed.
+(* odimo_mps_latency_reduction = softmax(c) . c : for ANY positive weights (exp is positive) between min and max *)
+Theorem C12_odimo_reduction_between : forall w c lo hi, length w = length c -> w <> [] -> Forall (fun x => 0 < x) w ->
+  Forall (fun x => lo <= x <= hi) c -> lo <= wavg w c <= hi.
+Proof. exact odimo_reduction_between. Qed.
+
+(* ---------------------------------------------------------------- the hypotheses are satisfiable, non-trivially *)
+(* a Conv1d (K = 3, 2 -> 3 channels, bias) followed by a depthwise Conv1d sharing its masker and a linear head *)
+Definition ex_net : net std :=
+  Build_net [Build_masker [1 # 2; -(3 # 4); 5] false; Build_masker [1; 1] true]
+    [Build_layer (Build_std false 10 1 1) 0%nat (2, []) (Some (Build_tmask 3 [1 # 2; -1; 7] [3 # 4; 9]));
+     Build_layer (Build_std true 10 1 1) 0%nat (0, [(1, 0%nat)]) (Some (Build_tmask 2 [1; 1] [1]));
+     Build_layer (Build_std false 1 1 1) 1%nat (0, [(10, 0%nat)]) None].
+Example C12_example_hypotheses :
+  wf_net ex_net /\ Forall (fun l => wf_std (l_s l)) (n_layers ex_net) /\
+  qlt_bool 0 (pit_cost std_f ex_net) = true /\
+  qlt_bool 0 (dd (d_pit_cost d_std_f (PAlpha 0 0) ex_net)) = true /\           (* positive element: positive derivative *)
+  qlt_bool (dd (d_pit_cost d_std_f (PAlpha 0 1) ex_net)) 0 = true /\           (* negative element: negative derivative *)
+  Qeq_bool (dd (d_pit_cost d_std_f (PAlpha 0 2) ex_net)) 0 = true /\           (* keep-alive element: none *)
+  qlt_bool 0 (dd (d_pit_cost d_std_f (PBeta 0 0) ex_net)) = true /\
+  qlt_bool 0 (dd (d_pit_cost d_std_f (PGamma 0 0) ex_net)) = true.
+Proof.
+  split; [|split].
+  - unfold wf_net, wf_affine. cbn. repeat constructor; unfold Qle; cbn; auto with zarith.
+  - unfold wf_std. cbn. repeat constructor; unfold Qle; cbn; auto with zarith.
+  - vm_compute. repeat split; reflexivity.
+Qed.
+Example C12_example_open :
+  Qeq_bool (pit_cost std_f (Build_net [Build_masker [1; -1; 1] false] [Build_layer (Build_std false 10 1 1) 0%nat (2, [])
+              (Some (Build_tmask 6 [1; -1; 1; 1; -1; 1] [1; -1; 1]))])) (10 * (3 * (2 * 6 + 1))) = true.
+Proof. vm_compute. reflexivity. Qed.
+Example C12_example_reduction : qpair (wavg [1; 3] [10; 20]) = (35, 2)%Z /\ qpair (mps_layer_cost [1] [1 # 4; 3 # 4] [[8; 16]]) = (14, 1)%Z.
+Proof. vm_compute. split; reflexivity. Qed.
+
+Print Assumptions C12_mask_maps_monotone.
 Print Assumptions C12_pit_cost_nonneg.
+Print Assumptions C12_pit_cost_mono_abs.
+Print Assumptions C12_pit_cost_open_eq_original.
+Print Assumptions C12_cost_indep_weights.
+Print Assumptions C12_std_admissible.
+Print Assumptions C12_gap8_admissible.
+Print Assumptions C12_dual_value_std.
+Print Assumptions C12_dual_value_gap8.
+Print Assumptions C12_pit_grad_sign.
+Print Assumptions C12_pit_grad_zero_at_zero.
+Print Assumptions C12_pit_grad_keepalive_zero.
+Print Assumptions C12_pit_grad_frozen_zero.
+Print Assumptions C12_pit_grad_pos_partial.
+Print Assumptions C12_pit_grad_pos_beta_partial.
+Print Assumptions C12_pit_grad_pos_gamma_partial.
+Print Assumptions C12_mix_cost_affine.
+Print Assumptions C12_mix_cost_nonneg.
+Print Assumptions C12_mps_layer_cost_affine_w.
+Print Assumptions C12_mps_layer_cost_nonneg.
+Print Assumptions C12_odimo_reduction_between.
